@@ -105,6 +105,21 @@ def scenarios(r, n, ctx):
                 extra.append({'overwrite': True, 'overwrite_part': False, 'rm_part_on_exc': True,
                               'text_mode': False, 'file_perms': None, 'umask': 0o022, 'dest': dest,
                               'part': 'absent', 'writes': body, 'flush': [], 'reuse': how})
+    # the save is made from the caller's own exception handler / finally clause
+    for within in ('except', 'finally'):
+        for dest in ('absent', 'present'):
+            for body, at in (([5], None), ([3, 4, 5], None), ([3, 4, 5], 1), ([20000], None)):
+                s = {'overwrite': True, 'overwrite_part': False, 'rm_part_on_exc': True,
+                     'text_mode': False, 'file_perms': None, 'umask': 0o022, 'dest': dest,
+                     'part': 'absent', 'writes': body, 'flush': [], 'within': within}
+                if at is not None:
+                    s['raise_at'] = at
+                extra.append(s)
+    # the leftover part file is a hard link of the destination itself (a save that died between link and unlink)
+    for body, fl in (([5], []), ([3, 4, 5], [0]), ([20000, 20000], [0])):
+        extra.append({'overwrite': True, 'overwrite_part': True, 'rm_part_on_exc': True, 'text_mode': False,
+                      'file_perms': None, 'umask': 0o022, 'dest': 'present', 'part': 'present', 'part_link': True,
+                      'writes': body, 'flush': fl})
     return out, extra
 
 
